@@ -76,3 +76,13 @@ Definition py_dict_del_slot (m : tdict nat) (v : option K) : option (tdict nat) 
 (* return v: a slot value handed to the caller *)
 Definition py_return_slot (v : option K) : res ret :=
   match v with Some x => Ok (RItem x) | None => Raise (OtherExn 12) end.
+
+(* ---- add / reverse / sort -------------------------------------------------------------------------- *)
+(* for i, item in enumerate(item_list): index_map[item] = i
+   (a _MISSING slot would be inserted as a key by the code; there is none where this loop runs) *)
+Definition py_remap_slots (m : tdict nat) (slots : list (option K)) : tdict nat :=
+  fold_left (fun m ix => match snd ix with Some x => d_set m x (fst ix) | None => m end)
+            (enumerate_from 0 slots) m.
+(* sorted_list == self.item_list *)
+Definition py_klist_eq_slots (l : list K) (slots : list (option K)) : bool :=
+  list_eqb slot_eqb (map Some l) slots.
